@@ -460,8 +460,11 @@ pub fn search(tier: &str, seed: u64, s: &mut Search) {
     // ---- --export-id: existing, missing, zero-sized; size, pixels and placement against the library
     for i in 0..(if tier == "thorough" { 400 } else { 60 } * mult) {
         let (pw, ph) = (120u32, 100u32);
-        let gts = format!("translate({} 4) scale({})", 4 * rng.range(0, 5), *rng.pick(&["1", "1.5", "0.5"]));
-        let rect = format!(r#"<rect id="shape" x="8" y="8" width="{}" height="32" fill="{}" stroke="black" stroke-width="4"/>"#, 4 * rng.range(2, 10), *rng.pick(&["green", "green", "none", "#0a08"]));
+        // every third document places the object off the pixel grid (its edges are anti-aliased; the export still
+        // has to show exactly what the page rendering shows)
+        let off = if i % 3 == 2 { *rng.pick(&[".5", ".25", ".7"]) } else { "" };
+        let gts = format!("translate({}{off} 4) scale({})", 4 * rng.range(0, 5), *rng.pick(&["1", "1.5", "0.5"]));
+        let rect = format!(r#"<rect id="shape" x="8{off}" y="8" width="{}" height="32{off}" fill="{}" stroke="black" stroke-width="4"/>"#, 4 * rng.range(2, 10), *rng.pick(&["green", "green", "none", "#0a08"]));
         let flat = r#"<path id="flat" d="M 5 5 h 40"/>"#;
         let text = r#"<text id="t" x="4" y="90" font-size="14">Text</text>"#;
         let head = format!(r#"<svg xmlns="http://www.w3.org/2000/svg" width="{}" height="{}">"#, pw, ph);
@@ -642,6 +645,64 @@ pub fn search(tier: &str, seed: u64, s: &mut Search) {
         }
         let _ = std::fs::remove_file(&out);
     }
+    // ---- usvg and the output file: a run that fails leaves no output (and does not destroy an earlier one), and the
+    // output may be the input file itself
+    {
+        let good = r#"<svg xmlns="http://www.w3.org/2000/svg" width="20" height="10"><rect width="10" height="5" fill="green"/></svg>"#;
+        let broken = [r#"<svg xmlns="http://www.w3.org/2000/svg" width="20" height="10"><rect"#, "not an svg at all", r#"<svg xmlns="http://www.w3.org/2000/svg" width="0" height="10"/>"#];
+        let o = crate::corpus::opts_for(None);
+        let want = usvg::Tree::from_str(good, &o).map(|t| t.to_string(&usvg::WriteOptions::default())).unwrap_or_default();
+        for (k, b) in broken.iter().enumerate() {
+            let inp = dir.join(format!("bad{}.svg", k));
+            let out = dir.join(format!("bad{}.out.svg", k));
+            let _ = std::fs::write(&inp, b);
+            // (a) no earlier output
+            let _ = std::fs::remove_file(&out);
+            let r = run("usvg", &[inp.display().to_string(), out.display().to_string()], None, &dir);
+            let key = format!("usvg on a rejected input #{}: {}", k, b);
+            s.case("usvg-failing-run", &key, r.code != Some(0));
+            if r.code == Some(0) {
+                continue;
+            }
+            if out.exists() {
+                s.finding("oracle:C20:usvg-failure-leaves-an-output-file", &format!("exit code {:?}, but {} exists ({} bytes)", r.code, out.display(), std::fs::metadata(&out).map(|m| m.len()).unwrap_or(0)), &key);
+            }
+            // (b) an earlier good output stays as it was
+            let _ = std::fs::write(&out, &want);
+            let _ = run("usvg", &[inp.display().to_string(), out.display().to_string()], None, &dir);
+            if std::fs::read_to_string(&out).unwrap_or_default() != want {
+                s.finding("oracle:C20:usvg-failure-destroys-an-earlier-output", "a failing run changed the output file of an earlier successful run", &key);
+            }
+            let _ = std::fs::remove_file(&out);
+        }
+        // stdout mode with --perf: what arrives on stdout is the image and nothing else
+        {
+            let inp = dir.join("perf.svg");
+            let _ = std::fs::write(&inp, good);
+            for extra in [vec!["--perf".to_string()], vec!["--perf".to_string(), "-z".to_string(), "2".to_string()], vec![]] {
+                let mut a = extra.clone();
+                a.extend([inp.display().to_string(), "-c".to_string()]);
+                let r = run("resvg", &a, None, &dir);
+                let key = format!("resvg {} <file> -c", extra.join(" "));
+                s.case("stdout-with-perf", &key, r.code == Some(0));
+                if r.signal.is_some() || r.code == Some(101) {
+                    s.finding("oracle:C20:stdout-mode:crash", &format!("code {:?} signal {:?}", r.code, r.signal), &key);
+                } else if r.code == Some(0) && decode_png(&r.stdout).is_none() {
+                    s.finding("oracle:C20:stdout-mode:output-not-a-png", &format!("exit code 0 but stdout ({} bytes, starts {:?}) does not decode as PNG", r.stdout.len(), String::from_utf8_lossy(&r.stdout[..r.stdout.len().min(24)])), &key);
+                }
+            }
+        }
+        // in place
+        let f = dir.join("inplace.svg");
+        let _ = std::fs::write(&f, good);
+        let r = run("usvg", &[f.display().to_string(), f.display().to_string()], None, &dir);
+        let key = format!("usvg with the input file as the output file: {}", good);
+        s.case("usvg-in-place", &key, r.code == Some(0));
+        let got = std::fs::read_to_string(&f).unwrap_or_default();
+        if r.code != Some(0) || got.trim_end() != want.trim_end() {
+            s.finding("oracle:C20:usvg-in-place-conversion-fails", &format!("exit code {:?}; the file holds {} bytes, the library serialisation has {}", r.code, got.len(), want.len()), &key);
+        }
+    }
     let _ = std::fs::remove_dir_all(&dir);
 }
 
@@ -717,49 +778,20 @@ fn export_oracle(s: &mut Search, key: &str, svg: &str, single: &str, id: &str, p
         }
         return;
     }
-    // the object's layer box in output pixels (a path's layer box is its fill box: the stroke is cut at it,
-    // as in resvg::render_node itself); outside it there is nothing but the background
-    let (x0, y0, x1, y1) = (bbox.x() * sx, bbox.y() * sy, bbox.right() * sx, bbox.bottom() * sy);
-    let mut blank = tiny_skia::Pixmap::new(gw, gh).unwrap();
-    if let Some(c) = bg.and_then(bg_color) {
-        blank.fill(c);
-    }
-    let Some(bpix) = via_png(&blank) else { return };
-    let away = |x: usize, y: usize| (x as f32) < x0 - 2.0 || (x as f32) > x1 + 2.0 || (y as f32) < y0 - 2.0 || (y as f32) > y1 + 2.0;
-    let mut nd_away = 0;
-    let mut first = None;
-    for (k, (a, b)) in gpix.chunks(4).zip(bpix.chunks(4)).enumerate() {
-        if a != b && away(k % w, k / w) {
-            nd_away += 1;
-            first.get_or_insert((k % w, k / w, [a[0], a[1], a[2], a[3]], [b[0], b[1], b[2], b[3]]));
-        }
-    }
-    if nd_away > 0 {
-        let (x, y, a, b) = first.unwrap();
-        let what = if bg.is_some() && a[..3] == b[..3] { "background-not-filled-once" } else { "content-outside-the-objects-box" };
-        s.finding(&format!("oracle:C20:export-id:area-page:{}", what), &format!("{} pixels away from the object's box differ from the background; at ({}, {}): {:?} vs {:?}", nd_away, x, y, a, b), key);
-        return;
-    }
-    let whole = |v: f32| (v - v.round()).abs() < 1e-3;
-    if whole(x0) && whole(y0) && whole(x1) && whole(y1) {
-        // inside the box: the page rendering of the node-only document
-        let (bx0, by0, bx1, by1) = (x0.round().max(0.0) as usize, y0.round().max(0.0) as usize, (x1.round().max(0.0) as usize).min(w), (y1.round().max(0.0) as usize).min(gh as usize));
-        let mut expect = bpix.clone();
-        for y in by0..by1 {
-            for x in bx0..bx1 {
-                let k = (y * w + x) * 4;
-                expect[k..k + 4].copy_from_slice(&wpix[k..k + 4]);
-            }
-        }
-        let mut g = tiny_skia::Pixmap::new(gw, gh).unwrap();
-        let mut q = tiny_skia::Pixmap::new(gw, gh).unwrap();
-        // straight alpha on both sides: compared as such
-        g.data_mut().copy_from_slice(gpix);
-        q.data_mut().copy_from_slice(&expect);
-        let (ok, why) = crate::rend::similar(&g, &q, 8);
-        if !ok {
-            s.finding("oracle:C20:export-id:area-page:object-misplaced-or-wrongly-scaled", &format!("differs from the page rendering of the node-only document cut at the object's box: {}", why), key);
-        }
+    // with --export-area-page the image is the page rendering of the document that contains only the exported node
+    // (under its ancestors' transforms), on the same background — the whole image, stroke and anti-aliased edges
+    // included (since fix b316a01 the node is rendered in place; before, it was pasted at whole pixels and cut at
+    // its layer box)
+    let _ = (bbox, sx, sy);
+    let mut g = tiny_skia::Pixmap::new(gw, gh).unwrap();
+    let mut q = tiny_skia::Pixmap::new(gw, gh).unwrap();
+    // straight alpha on both sides: compared as such
+    g.data_mut().copy_from_slice(gpix);
+    q.data_mut().copy_from_slice(&wpix);
+    let _ = w;
+    let (ok, why) = crate::rend::similar(&g, &q, 8);
+    if !ok {
+        s.finding("oracle:C20:export-id:area-page:differs-from-the-page-rendering-of-the-node", &format!("differs from the page rendering of the node-only document: {}", why), key);
     }
 }
 
